@@ -108,6 +108,7 @@ template <typename D> struct Replayer {
   }
 
   // returns the JSON text of the step's outcome
+  bool force_stutter = false; // domain name suffix "#s": all observations are made on the registers themselves
   void run(const vj::Value &h, std::ostream &o, const std::string &dom) {
     crab::domains::crab_domain_params_man::get() = crab::domains::crab_domain_params();
     if (h.has("params")) set_domain_params(h["params"]);
@@ -116,7 +117,7 @@ template <typename D> struct Replayer {
     for (size_t i = 1; i <= vt.n(); ++i) qvars.push_back(i);
     int nregs = h["nregs"].i();
     // stutter = 1: queries are made on the registers themselves (C16: must not change meaning)
-    bool on_copy = h.geti("stutter", 0) == 0;
+    bool on_copy = h.geti("stutter", 0) == 0 && !force_stutter;
     regs.clear();
     last.clear();
     for (int r = 0; r <= nregs; ++r) {
@@ -213,6 +214,7 @@ template <typename D> struct Replayer {
   }
 };
 
+bool &stutter_flag();
 // registry: domain name -> function(history, out)
 typedef std::function<void(const vj::Value &, std::ostream &)> runner_t;
 std::map<std::string, runner_t> &registry();
@@ -225,7 +227,8 @@ template <typename D> runner_t plain_runner(const std::string &name, bool with_d
     variable_factory_t vfac;
     Replayer<D> rp(vfac, []() { return D(); });
     rp.with_disj = with_disj;
-    rp.run(h, o, name);
+    rp.force_stutter = stutter_flag();
+    rp.run(h, o, name + (stutter_flag() ? "#s" : ""));
   };
 }
 
